@@ -389,6 +389,14 @@ func (p *sp) primary() Val {
 			panic(specErr{"spec: len of a value without length in " + p.src})
 		}
 		return intV(a.Len)
+	case t == "xor":
+		// bitwise exclusive or, the same uninterpreted function the instruction semantics uses for ^
+		p.expect("(")
+		a := p.iff()
+		p.expect(",")
+		b := p.iff()
+		p.expect(")")
+		return intV(fmt.Sprintf("(%s %s %s)", p.g.uf("bxor", 2, "Int"), a.T, b.T))
 	case t == "old":
 		p.expect("(")
 		save := p.env
